@@ -707,7 +707,6 @@ OPEN_REWRITES = {
     'R06-2': 'normalisation of J1..J5 in a helper returning Option<Joints>: R01.4/R02.2 read the in-place loop',
     'R06-4': 'YAML/URDF loaders destructure and rebuild the sign array, dof by match: R06.5, R19.3, R20.4 read the in-place assignment',
     'R07-3': 'URDF limits through a NO_LIMITS constant and destructuring assignment: R20.2/R20.4/R06.5 read the field stores',
-    'R09-2': 'LinearAxis::forward writes the distance into a zeroed [f64; 3] at index axis: R09.5 reads the three match arms',
     'R12-1': 'pose list built from an anchor list walked with windows(2): R12.5 reads the push sites of LAND / TRACE / PARK',
     'R12-2': 'flags of a Cartesian extension by split_last + extend, RRT gap by find_map: R12.5 reads the per-item flag choice',
     'R13-2': 'ancestor walk by iter::successors, path assembly by rev().chain().collect(), orientation tested on the other tree: R13.3 reads the two walks, reverse and append',
